@@ -190,7 +190,14 @@ func Prepare(tag string, wantReal bool) *Build {
 	}
 	b.Sites = sites
 	b.WireSim = filepath.Join(bin, "wire.sim")
-	if out, err := run(b.Tree, GoEnv(), "go", "build", "-trimpath", "-o", b.WireSim, "./cmd/wire"); err != nil {
+	buildArgs := []string{"build", "-trimpath"}
+	if os.Getenv("VERIF_COVER") != "" {
+		// diagnostic only (tools/cover.sh): statement coverage of wire's own packages under the workloads;
+		// the processes write their counters to $GOCOVERDIR, which world.Env passes through
+		buildArgs = append(buildArgs, "-cover", "-coverpkg=github.com/google/wire/internal/wire,github.com/google/wire/cmd/wire")
+	}
+	buildArgs = append(buildArgs, "-o", b.WireSim, "./cmd/wire")
+	if out, err := run(b.Tree, GoEnv(), "go", buildArgs...); err != nil {
 		Infra("the instrumented cmd/wire does not build:\n%s", out)
 	}
 	return b
